@@ -43,6 +43,10 @@ OutOf(p) ==
 Conservation == \A p \in 1..NRes : obj.pool[p].level + OutOf(p) = ResInit
 ShareBounded == \A p \in (NRes + 1)..MaxPools : obj.pool[p].level <= obj.pool[p].debit
 
+\* sanity of the specification itself: whoever is executing can take a step (a state in which `run` is not empty
+\* and nothing is enabled would silently cut behaviours short and hide everything behind it)
+NoStuck == (run # <<>> /\ fault = "") => ENABLED Next
+
 \* C09
 MutualExclusion == \A l \in Locks : \A a, b \in Acts : (HeldCount(a, l) > 0 /\ HeldCount(b, l) > 0) => a = b
 OwnerConsistent == \A l \in Locks : \A a \in Acts : HeldCount(a, l) > 0 => (lock[l].owner = a /\ lock[l].depth = HeldCount(a, l))
